@@ -147,12 +147,12 @@ def judge_gradient(obs, spec, cfg, gres, fvals, pvals, tag, judge_merged_values=
     mask = np.ones(V, dtype=bool) if spec.get("mask") is None else np.array(spec["mask"], dtype=bool)
     failed_f = np.isnan(fvals).any(axis=1)
     psucc = ~np.isnan(pvals).any(axis=2)
-    failed_g = failed_f | (psucc.sum(axis=1) < cfg.gradient.perturbation_min_success)
+    failed_g = failed_f | (psucc.sum(axis=1) < ens.pmin_of(spec))
     rep = np.asarray(gres.realizations.failed_realizations)
     if not np.array_equal(rep, failed_g):
         obs.violation("failed_flags_gradient", reported=rep, expected=failed_g, tag=tag)
         return False
-    enough = int((~failed_g).sum()) >= cfg.realizations.realization_min_success
+    enough = int((~failed_g).sum()) >= ens.rmin_of(spec)
     if not enough:
         obs.count("below_min_success")
         obs.check(gres.gradients is None, "gradients_reported_below_min_success", tag=tag)
@@ -168,7 +168,7 @@ def judge_gradient(obs, spec, cfg, gres, fvals, pvals, tag, judge_merged_values=
         elif why:
             obs.count("gradients_missing_explained_by_filter_or_estimator")
         else:
-            obs.violation("gradients_missing", tag=tag, failed=failed_g, rmin=int(cfg.realizations.realization_min_success), filters=spec.get("filters"),
+            obs.violation("gradients_missing", tag=tag, failed=failed_g, rmin=ens.rmin_of(spec), filters=spec.get("filters"),
                           estimators=spec.get("estimators"))
         return False
     G = np.vstack([np.asarray(gres.gradients.objectives), np.asarray(gres.gradients.constraints)] if n_con else
